@@ -17,7 +17,8 @@ from typing import Any
 
 RE_PROPERTY = re.compile(r"[\u0080-￿a-zA-Z_][\u0080-￿a-zA-Z0-9_-]*")
 KEYWORDS = frozenset(
-    "true false and or in not contains nil null if else with required as for empty blank".split()
+    "true false and or in not contains nil null if else with required as for empty blank "
+    "limit offset reversed cols".split()  # the last four: loop-argument words after an array literal
 )
 
 SHORT_ESC = {"\n": "\\n", "\t": "\\t", "\r": "\\r", "\x08": "\\b", "\x0c": "\\f"}
@@ -151,13 +152,14 @@ def p_range_end(e: list[Any], lay: Layout, *, start: bool) -> str:
     return s
 
 
-def p_path(e: list[Any], lay: Layout) -> str:
+def p_path(e: list[Any], lay: Layout, nested: bool = False) -> str:
     _, root, segs = e
-    brackets_root = not isinstance(root, str) or not is_ident(root)
+    # inside brackets a keyword (true, for, ...) is an ordinary variable name
+    brackets_root = not isinstance(root, str) or not (RE_PROPERTY.fullmatch(root) if nested else is_ident(root))
     if isinstance(root, int):  # `[0]`: the variable whose name is the integer 0
         buf = ["[" + lay.ows() + str(root) + lay.ows() + "]"]
     elif not isinstance(root, str):  # indirect root: the variable is named by another path
-        buf = ["[" + lay.ows() + p_path(root, lay) + lay.ows() + "]"]
+        buf = ["[" + lay.ows() + p_path(root, lay, nested=True) + lay.ows() + "]"]
     elif brackets_root:
         buf = ["[" + lay.ows() + quote_string(root, lay, raw_nl=False) + lay.ows() + "]"]
     else:
@@ -175,7 +177,7 @@ def p_path(e: list[Any], lay: Layout) -> str:
         elif kind == "si":  # shorthand index `.0`
             buf.append("." + str(seg[1]))
         elif kind == "p":
-            buf.append("[" + lay.ows() + p_path(seg[1], lay) + "]")
+            buf.append("[" + lay.ows() + p_path(seg[1], lay, nested=True) + "]")
         else:
             raise ValueError(seg)
     return "".join(buf)
